@@ -16,7 +16,9 @@ from .common import case, guarded, ordinal_instance, weak_orders, rand_weak_orde
 
 ID = "C11"
 RULE = ("exhaustive: is_single_peaked_axis on every axis for every profile of 1-2 distinct complete weak orders over "
-        "m <= 3 alternatives (thorough: also every single weak order and every pair over m = 4); sampled profiles of "
+        "m <= 3 alternatives (thorough: also every single weak order and every pair over m = 4); PQ-tree and ILP on every "
+        "profile of <= 3 distinct weak orders over m <= 3; near-axis profiles (planted + one perturbed vote, m 5-7, n 3-5, "
+        "strict and weak) for the PQ-tree against the reference; sampled profiles of "
         "1-4 weak orders for m = 4 on all 24 axes, random m <= 6 on sampled axes; PQ-tree verdict for all of these "
         "profiles and random m <= 5 (thorough 6), ILP on a budgeted subset; planted single-plateaued profiles, ties at "
         "the top, complete indifference; type gate on soi/toi/cat. non-trivial = >= 3 alternatives and >= 2 distinct orders")
@@ -52,6 +54,37 @@ def planted_weak(rng, axis, p_big=0.35):
         order.append(cls)
         l, r = l - dl, r + dr
     return order
+
+
+def strictify_sp(rng, order, axis):
+    """break the ties of a planted weak order so that the result stays single-peaked on axis: inside a class the
+    left part is read towards the left, the right part towards the right, interleaved at random"""
+    pos = {a: i for i, a in enumerate(axis)}
+    out = []
+    lo = hi = None
+    for cls in order:
+        cs = sorted(cls, key=lambda a: pos[a])
+        if lo is None:                       # plateau: start at a random member, grow outwards
+            s = rng.randrange(len(cs))
+            seq, l, r = [cs[s]], s - 1, s + 1
+            while l >= 0 or r < len(cs):
+                if r >= len(cs) or (l >= 0 and rng.random() < 0.5):
+                    seq.append(cs[l]); l -= 1
+                else:
+                    seq.append(cs[r]); r += 1
+            lo, hi = pos[cs[0]], pos[cs[-1]]
+        else:
+            left = [a for a in cs if pos[a] < lo][::-1]
+            right = [a for a in cs if pos[a] > hi]
+            seq = []
+            while left or right:
+                if not right or (left and rng.random() < 0.5):
+                    seq.append(left.pop(0))
+                else:
+                    seq.append(right.pop(0))
+            lo, hi = min(lo, pos[cs[0]]), max(hi, pos[cs[-1]])
+        out.extend([a] for a in seq)
+    return out
 
 
 def is_strict(profile):
@@ -115,7 +148,7 @@ def generate(tier, seed):
     rng = random.Random(1000003 * seed + 11)
     out = []
     thorough = tier != "quick"
-    ilp_budget = [150 if not thorough else 1500]
+    ilp_budget = [700 if not thorough else 3000]
 
     def add_profile(alts, profile, axes=None, exh=0, pq=True, ilp=False, tag=None):
         dt = dtype_of(profile)
@@ -133,18 +166,18 @@ def generate(tier, seed):
         if flags & 3:
             out.append(case("c11.deciders", [dt, alts, profile, flags], exh=exh, m=len(alts), kind=tag))
 
-    # ---- exhaustive part
+    # ---- exhaustive part: m <= 3, every profile of <= 3 distinct weak orders, every axis, PQ-tree AND ILP on all of
+    #      them (tied top classes whose contiguity excludes every axis, e.g. {0,2}>1, 0>1>2, 2>1>0)
     for m in (1, 2, 3):
-        alts = list(range(1, m + 1))
+        alts = list(range(0, m))
         axes = list(itertools.permutations(alts))
         wos = list(weak_orders(alts))
         for o in wos:
-            add_profile(alts, [o], axes, exh=1, ilp=(m == 3 and rng.random() < 0.5), tag="exh1")
+            add_profile(alts, [o], axes, exh=1, ilp=True, tag="exh1")
         for o1, o2 in itertools.combinations(wos, 2):
-            add_profile(alts, [o1, o2], axes, exh=1, ilp=(rng.random() < 0.2), tag="exh2")
-        if thorough and m == 3:
-            for tr in itertools.combinations(wos, 3):
-                add_profile(alts, list(tr), axes, exh=1, ilp=(rng.random() < 0.3), tag="exh3")
+            add_profile(alts, [o1, o2], axes, exh=1, ilp=True, tag="exh2")
+        for tr in itertools.combinations(wos, 3):
+            add_profile(alts, list(tr), axes if thorough else None, exh=1, ilp=True, tag="exh3")
     alts4 = [1, 2, 3, 4]
     axes4 = list(itertools.permutations(alts4))
     wos4 = list(weak_orders(alts4))
@@ -173,6 +206,41 @@ def generate(tier, seed):
         dec = m <= (5 if not thorough else 6)
         add_profile(alts, prof, axes, pq=dec, ilp=dec and m <= 5 and (rng.random() < (0.2 if not thorough else 0.25)),
                     tag=styles[i % len(styles)])
+
+    # ---- near-axis profiles (nested structure): planted votes on a hidden axis + one vote perturbed by one or two
+    #      adjacent swaps or one displaced alternative; m = 5..7, n = 3..5, strict and weak; PQ-tree (fast) against the
+    #      reference on thousands of them, is_single_peaked cross-checked on the strict ones
+    nnear = 6000 if not thorough else 40000
+    for i in range(nnear):
+        m = 5 + i % 3
+        alts = rng.sample(range(0, rng.choice([m, 12, 1000])), m)
+        axis = rand_perm(rng, alts)
+        n = rng.randint(3, 5)
+        weak = (i % 2 == 1)
+        votes = []
+        for _ in range(n):
+            o = planted_weak(rng, axis, p_big=(0.25 if weak else 0.0))
+            if not weak:
+                o = [[a] for c in o for a in c] if all(len(c) == 1 for c in o) else strictify_sp(rng, o, axis)
+            votes.append(o)
+        # perturb one vote
+        k = rng.randrange(len(votes))
+        flat = [a for c in votes[k] for a in c]
+        sizes = [len(c) for c in votes[k]]
+        if rng.random() < 0.6:
+            for _ in range(rng.randint(1, 2)):
+                j = rng.randrange(m - 1)
+                flat[j], flat[j + 1] = flat[j + 1], flat[j]
+        else:
+            a = flat.pop(rng.randrange(m))
+            flat.insert(rng.randrange(m), a)
+        o, j = [], 0
+        for sz in sizes:
+            o.append(flat[j:j + sz])
+            j += sz
+        votes[k] = o
+        prof = distinct_semantic(votes)
+        add_profile(rand_perm(rng, alts), prof, None, pq=True, ilp=(i % 40 == 0), tag="near-axis")
 
     # ---- type gate (soi, toi with complete and incomplete orders; a CategoricalInstance)
     for i in range(24 if not thorough else 120):
@@ -321,6 +389,11 @@ def stats(c, r, m):
         for k in ("pq", "ilp", "elo"):
             if isinstance(r, dict) and k in r:
                 lab.append("%s %s" % (k, v))
+        if c["tags"].get("kind") == "near-axis":
+            lab.append("near-axis %s %s" % ("strict" if pl[0] == 0 else "weak", v))
+            lab.append("near-axis m=%d n=%d" % (len(pl[1]), len(pl[2])))
+        if any(len(o[0]) >= 2 for o in pl[2]) and len(pl[1]) == 3:
+            lab.append("m=3 with tied top: %s%s" % (v, " (ILP run)" if "ilp" in r else ""))
         if any(len(o) == 1 for o in pl[2]):
             lab.append("has complete indifference")
         if any(len(o[0]) >= 2 for o in pl[2]):
